@@ -2,6 +2,7 @@
 
 pub mod archive;
 pub mod c01;
+pub mod c02;
 pub mod c03;
 pub mod c04;
 
@@ -25,15 +26,17 @@ pub enum Body {
     C04(c04::C04Doc),
     C03(c03::C03Doc),
     C01(c01::C01Doc),
+    C02(c02::C02Doc),
 }
 
-pub const PROPS: [&str; 3] = ["C01", "C03", "C04"];
+pub const PROPS: [&str; 4] = ["C01", "C02", "C03", "C04"];
 
 pub fn generate(prop: &str, seed: u64, tier: Tier) -> Doc {
     match prop {
         "C04" => c04::generate(seed, tier),
         "C03" => c03::generate(seed, tier),
         "C01" => c01::generate(seed, tier),
+        "C02" => c02::generate(seed, tier),
         _ => panic!("HARNESS: unknown property {}", prop),
     }
 }
@@ -44,6 +47,7 @@ pub fn directed(prop: &str) -> Vec<Doc> {
         "C04" => c04::directed(),
         "C03" => c03::directed(),
         "C01" => c01::directed(),
+        "C02" => c02::directed(),
         _ => vec![],
     }
 }
@@ -53,6 +57,7 @@ pub fn run_doc(doc: &Doc, trace: bool) -> RunResult {
         Body::C04(b) => c04::run(doc, b, trace),
         Body::C03(b) => c03::run(doc, b, trace),
         Body::C01(b) => c01::run(doc, b, trace),
+        Body::C02(b) => c02::run(doc, b, trace),
     }
 }
 
@@ -103,6 +108,13 @@ pub fn shrink_candidates(doc: &Doc) -> Vec<Doc> {
                 out.push(d);
             }
         }
+        Body::C02(b) => {
+            for nb in c02::shrink(b) {
+                let mut d = doc.clone();
+                d.body = Body::C02(nb);
+                out.push(d);
+            }
+        }
         Body::C03(b) => {
             for nb in c03::shrink(b) {
                 if !c03::well_formed(&nb) {
@@ -122,6 +134,7 @@ pub fn probe_names(prop: &str) -> &'static [&'static str] {
         "C04" => &c04::PROBES,
         "C03" => &c03::PROBES,
         "C01" => &c01::PROBES,
+        "C02" => &c02::PROBES,
         _ => &[],
     }
 }
@@ -132,6 +145,7 @@ pub fn mandatory_probes(prop: &str) -> Vec<usize> {
         "C04" => (0..c04::PROBES.len()).collect(),
         "C03" => (0..c03::PROBES.len()).collect(),
         "C01" => (0..c01::PROBES.len()).collect(),
+        "C02" => (0..c02::PROBES.len()).collect(),
         _ => vec![],
     }
 }
